@@ -40,6 +40,9 @@ def run(ctx):
                       "(_setup_refs, directly or via a callee); a rebuild outside the constructor first unwatches and resets ref_watchers", floor=3)
     ctx.rule("R08.b", "every resolve_ref/resolve_value call in class Parameters that computes a link's dependencies or value passes recursive=<that parameter>.nested_refs", floor=5)
     ctx.rule("R08.c", "the sync's own writes (update in _sync_refs/_async_ref) happen inside a `with _syncing(...)` scope, and the setter reads the syncing set before deciding to drop a link", floor=3)
+    ctx.rule("R08.v", "link model, _resolve_ref: interpreted on a plain value / a reference to ordinary, constant or mixed sources / a reference whose evaluation is skipped / a coroutine function / "
+                      "an asynchronous generator / a coroutine bound to a parameter: everything with dependencies or asynchronous comes back as a reference (the assigned object, all its "
+                      "dependencies), whatever kind of parameter the sources are; the value is the resolved one, Undefined when skipped, None while pending; scheduled once", floor=1)
     ctx.rule("R08.d", "every reference is installed: in Parameter.__set__ the relink decision holds whenever _resolve_ref returned a reference (top-level disjunct `ref is not None`), "
                       "and the constructor records refs[name] = ref under exactly `ref is not None`", floor=2)
     ctx.rule("R08.e", "_sync_refs re-resolves exactly the links one of whose dependencies matches one of the delivered events by (owner identity, name) -- decided by abstract "
@@ -388,6 +391,7 @@ def run(ctx):
     ctor_model.report(ctx, "C08", "R08.k")
     from checks import link_model
     link_model.report(ctx, "C08", "R08.l")
+    link_model.report_resolve(ctx, "R08.v")
     from checks import trigger_model
     trigger_model.report(ctx, "C08", "R08.t")
     from checks import cm_model
